@@ -119,6 +119,8 @@ def norm(obj):
         return [norm(x) for x in obj]
     if isinstance(obj, dict):
         return {str(k): norm(v) for k, v in obj.items()}
+    if type(obj).__module__.startswith("pandas") and hasattr(obj, "tolist"):       # a pandas Series is a sequence of its values
+        return [norm(x) for x in obj.tolist()]
     return obj
 
 
@@ -132,6 +134,13 @@ def mutable_leaves(obj, path="", out=None, _seen=None, _depth=0):
     if isinstance(obj, np.ndarray):
         _seen.add(id(obj))
         out.append((path, obj))
+        return out
+    if type(obj).__module__.startswith("pandas"):
+        # a pandas container counts through its data buffer; its index caches and block managers are pandas' own business
+        _seen.add(id(obj))
+        vals = getattr(obj, "values", None)
+        if isinstance(vals, np.ndarray):
+            out.append((path + ".values", vals))
         return out
     if isinstance(obj, dict):
         _seen.add(id(obj))
